@@ -431,6 +431,9 @@ def run(tier, seed):
     v.assumptions += ["PTY tasks are not exercised (no pty in this sandbox)",
                       "the writer separates its writes by 30-35 ms so that each arrives as one read (the oracle itself does not depend on the chunking)",
                       "the inline preview is compared after lossy UTF-8 decoding of the byte prefix"]
+    # the repository's own tests as drivers: every recorded execution against the monitor half of System.tla
+    from .. import suite
+    suite.check(v, wd)
     return v.finish(
         rule="cases = (limit, cap, chunking) of Capture x unit size x payload class on the real bash tool; task alphabet (payload class x cap x preview limit x "
              "exit code, read-size boundaries, volume on both streams, silent, invalid request, bad cwd, cancel while queued / at once / mid-output / twice / after exit, "
@@ -441,6 +444,9 @@ def run(tier, seed):
 def replay(path, seed):
     with open(path) as f:
         rep = json.load(f)
+    if rep["case"].get("engine") == "suite":
+        from .. import suite
+        return suite.replay(PROP, path, rep["case"])
     print("replay: re-run ./check C17 --tier quick; the case is identified by its id in the replay file:", rep["case"].get("case", {}).get("id"))
     v = Verdict(PROP, "replay", seed)
     wd = workdir(PROP + "-replay")
